@@ -34,6 +34,47 @@ type Scn struct {
 	Place string            `json:"place,omitempty"` // ann (package-operator.run/condition) | cond (spec.filters.conditions[]) | path (spec.filters.paths[])
 	Expr  *CelExpr          `json:"expr,omitempty"`  // cel: the expression as a tree (celX: Blob holds free text)
 	Imgs  map[string]string `json:"imgs,omitempty"`  // images of the render context
+	// tree (cli stream): one row of the kubectl-package config-resolution decision table.
+	Cli *CliScn `json:"cli,omitempty"`
+}
+
+// CliScn describes a package on disk (manifest scopes, config schema, test templates) plus the
+// `kubectl package tree` options.  Every field is always emitted (the Lean side reads them all).
+//
+//	scopes   spec.scopes of the manifest
+//	schema   spec.config.openAPIV3Schema present; props = its top-level properties (all type string)
+//	tpls     test.template[]
+//	cp       --config-path: "" not given | missing (file does not exist) | obj | null | empty |
+//	         comment | scalar | list | bad (not YAML); cpk = keys of the object (cp=obj), values are "v"
+//	tc       --config-testcase ("" = not given)
+//	cluster  --cluster
+type CliScn struct {
+	Scopes  []string  `json:"scopes"`
+	Schema  bool      `json:"schema"`
+	Props   []CliProp `json:"props"`
+	Tpls    []CliTpl  `json:"tpls"`
+	CP      string    `json:"cp"`
+	CPK     []string  `json:"cpk"`
+	TC      string    `json:"tc"`
+	Cluster bool      `json:"cluster"`
+}
+
+// CliProp is one top-level property of the config schema: name, has a default, is required.
+type CliProp struct {
+	N string `json:"n"`
+	D bool   `json:"d"`
+	R bool   `json:"r"`
+}
+
+// CliTpl is one test.template[] entry.
+//
+//	cfg  context.config as written in manifest.yaml: "" key absent | null | obj (keys ck, values "v") | scalar
+//	pkg  context.package: "" absent | ns (metadata.name + namespace) | nons (metadata.name only)
+type CliTpl struct {
+	Name string   `json:"name"`
+	Cfg  string   `json:"cfg"`
+	CK   []string `json:"ck"`
+	Pkg  string   `json:"pkg"`
 }
 
 // CelExpr is the modelled fragment of CEL: bool literal, field selection from a context variable,
